@@ -76,7 +76,7 @@ class _Opt:
 @condition("C06.placement",
            anchors=["polyply.src.backmap:Backmap._place_init_coords", "polyply.src.backmap:orient_template",
                     "polyply.src.linalg_functions:_rotate_xyz"],
-           replay=True, must_cover=["neighbours", "no neighbour", "second copy"],
+           replay=True, must_cover=["neighbours", "no neighbour", "second copy", "earlier system backmapped"],
            stubs=["scipy.optimize.minimize (backmap) -> three arbitrary symbolic angles (every result the optimiser can return)",
                   "np.random.uniform (backmap) -> zeros", "backmap.np / linalg_functions.np -> object-array shim"],
            assumes=["the optimiser returns finite angles"],
@@ -111,7 +111,11 @@ def placement(sx, B):
     current = {"key": None}
     angles_of = {}
 
+    warm = {"on": False}
+
     def minimize(fun, x0, method=None, options=None):
+        if warm["on"]:
+            return {"x": [0.0, 0.0, 0.0]}
         k = len(angle_sets)
         ang = [sx.real("angle%d_%s" % (k, a)) for a in "xyz"]
         angle_sets.append(ang)
@@ -120,7 +124,8 @@ def placement(sx, B):
     real_orient = backmap.orient_template
 
     def orient(meta_molecule, current_node, template, built_nodes):
-        current["key"] = (id(meta_molecule), current_node)
+        if not warm["on"]:
+            current["key"] = (id(meta_molecule), current_node)
         return real_orient(meta_molecule, current_node, template, built_nodes)
 
     class _O:
@@ -144,6 +149,26 @@ def placement(sx, B):
             k += 1
     shim = NP(random=_R)
     with patched(backmap, np=shim, scipy=sc, orient_template=orient), patched(lf, np=NP()):
+        # history inside one process: an earlier system with the same residue names, atom names and bonds but another (concrete)
+        # template geometry has been backmapped before; nothing of it may show in the system under test
+        warm["on"] = True
+        top0 = topology_from_text(top_text(MOLS, layout, atomtypes=("R4", "R2", "R3", "T2")))
+        templates0 = {}
+        for resname, t in templates.items():
+            nms = list(t)
+            vecs0 = {nm: np.array([1.0 + i, -1.0 * i, 0.5 * i], dtype=object) for i, nm in enumerate(nms[:-1])}
+            vecs0[nms[-1]] = -sum(vecs0.values())
+            templates0[resname] = {nm: vecs0[nm] for nm in nms}
+        for meta in top0.molecules:
+            meta.templates = templates0
+            for kk, node in enumerate(meta.nodes):
+                nd = meta.nodes[node]
+                nd["template"] = nd["resname"]
+                nd["backmap"] = True
+                nd["position"] = np.array([1.0 * kk, 0.0, 0.0], dtype=object)
+            backmap.Backmap(fudge_coords=0.5).run_molecule(meta)
+        warm["on"] = False
+        sx.cover("earlier system backmapped")
         for meta in top.molecules:
             backmap.Backmap(fudge_coords=fudge).run_molecule(meta)
     seen_r4 = 0
